@@ -274,7 +274,17 @@ def _d3(chk, fb):
             # unshifted exponent: allowed only on the single-element shortcut
             iff = f.enclosing(e, ("IfStmt",))
             ct = render(f.nodes[iff["cond"]]) if iff is not None else ""
-            if re.search(r"size\(\) == 1\)", ct) or re.search(r"\(size == 1\)", ct):
+
+            def single(facts):
+                for t_, tr_, nd_ in facts:
+                    tt = render(nd_, subs) if nd_ is not None else t_
+                    if (re.search(r"size\(\) == 1\)?$", tt) or re.search(r"^\(?\w+ == 1\)?$", tt)) and tr_ is True:
+                        return True
+                    if (re.search(r"size\(\) != 1\)?$", tt) or re.search(r"^\(?\w+ != 1\)?$", tt)) and tr_ is False:
+                        return True
+                return False
+            eb = cfg.stmt_block(e)
+            if re.search(r"size\(\) == 1\)", ct) or re.search(r"\(size == 1\)", ct) or (eb is not None and e1.guarded_by(cfg, eb, single)[0]):
                 chk.proved("D3", f.key, construct, f.loc(e), "unshifted exponent only for a single element (%s)" % ct)
             else:
                 chk.refuted("D3", f.key, construct, f.loc(e), "%s takes exp(%s) without subtracting the maximum: the sum overflows where the shifted formula stays finite" % (f.name, render(a)),
@@ -463,17 +473,35 @@ def _d4(chk, fb):
     if len(tgt) != 1:
         raise AnalysisBroken("anchor vanished: the FDR assignment in computeFdr")
     a = tgt[0]
-    lp = f.enclosing(a, ("ForStmt",))
-    ini = f.nodes.get(lp["init"]) if lp else None
-    if ini is None or ini["k"] != "DeclStmt":
+    lp = f.enclosing(a, ("ForStmt", "CXXForRangeStmt", "WhileStmt"))
+    if lp is None:
         raise AnalysisBroken("anchor vanished: loop over the sorted p-values")
-    ivar = ini["decls"][0]["name"]
+    ini = f.nodes.get(lp["init"]) if lp["k"] == "ForStmt" and lp.get("init") is not None else None
+    ivar = None
+    if ini is not None and ini["k"] == "DeclStmt":
+        ivar = ini["decls"][0]["name"]
+    else:
+        # a range-for (or while) with a position counter: a local started at 0 and incremented once per pass
+        incs = [x for x in walk(lp) if x["k"] == "UnaryOperator" and x.get("op") == "++" and strip(kids(x)[0])["k"] == "DeclRefExpr"]
+        cands = set()
+        for x in incs:
+            dcl = strip(kids(x)[0])["decl"]
+            for dn in f.all_nodes():
+                if dn["k"] == "DeclStmt" and not f.contains(lp, dn):
+                    for dd in dn["decls"]:
+                        if dd["id"] == dcl["id"] and dd.get("init") is not None and strip(dd["init"])["k"] == "IntegerLiteral" and int(strip(dd["init"])["val"]) == 0:
+                            cands.add(dcl["name"])
+        if len(cands) == 1 and len(incs) == 1:
+            ivar = cands.pop()
+    if ivar is None:
+        chk.unknown("D4", f.key, "rank", f.loc(a), "position of the p-value in the sorted sequence not recognised (loop form)")
+        return
     d = [x for x in divs if f.contains(kids(a)[1], x)][-1]
     # outermost division of the right-hand side
     top = strip(kids(a)[1])
     if top["k"] == "BinaryOperator" and top["op"] == "/":
         d = top
-    den = render(kids(d)[1])
+    den = render(kids(d)[1], local_inits(f))
     den_s = re.sub(r"static_cast<double>\(|\(double\)", "(", den)
     uses_pos = re.search(r"\b%s\b" % re.escape(ivar), re.sub(r"\[%s\]" % re.escape(ivar), "[]", den_s)) is not None
     uses_orig = "index_" in den_s
@@ -585,7 +613,7 @@ def _d6(chk, fb):
         g = None
         for t in thr:
             iff = f.enclosing(t, ("IfStmt",))
-            if iff is not None and render(f.nodes[iff["cond"]]).replace(" ", "") in ("(%s.size()==0)" % v, "%s.empty()" % v, "(%s.size()<1)" % v):
+            if iff is not None and render(f.nodes[iff["cond"]], local_inits(f)).replace(" ", "") in ("(%s.size()==0)" % v, "%s.empty()" % v, "(%s.size()<1)" % v, "(0==%s.size())" % v):
                 if "EmptyVectorException" in (str(t.get("thrown")) + render(t)) and all(cfg.dominates(cfg.stmt_block(f.nodes[iff["cond"]]), cfg.stmt_block(r)) for r in reads):
                     g = t
         if g is not None:
@@ -602,8 +630,13 @@ def _d6(chk, fb):
         if run is None:
             chk.unknown("D6", f.key, "start", f.loc(), "running value not found")
             continue
-        if run[1] == "%s[0]" % v:
+        subs6 = local_inits(f)
+        start_txt = render(run[0]["init"], subs6).replace("std::", "")
+        i6 = strip(run[0]["init"])
+        if run[1] == "%s[0]" % v or start_txt in ("%s[0]" % v, "*%s.begin()" % v, "%s.front()" % v, "*(%s.begin())" % v, "%s.at(0)" % v):
             chk.proved("D6", f.key, "start", f.loc(), "running value starts at %s[0]" % v)
+        elif v in start_txt or any(x["k"] == "DeclRefExpr" and x["decl"].get("kind") in ("local", "var") for x in walk(run[0]["init"])):
+            chk.unknown("D6", f.key, "start", f.loc(), "running value starts from '%s': not recognised as the first element" % run[1])
         else:
             chk.refuted("D6", f.key, "start", f.loc(), "the running %s starts from '%s' instead of the first element: inputs entirely on the other side of that value give a wrong result" % (
                 "minimum" if "in" in f.name else "maximum", run[1]), witness={"input": "{-3, -1}" if want[f.name] == ">" else "{5, 7}"})
@@ -641,8 +674,11 @@ def _d6(chk, fb):
             if lp is not None and f.nodes.get(lp["init"], {}).get("k") == "DeclStmt":
                 lpv = f.nodes[lp["init"]]["decls"][0]["name"]
             rets = [render(kids(x)[0]) for x in walk(f.body) if x["k"] == "ReturnStmt" and kids(x)]
-            if val and m and m.group(2) == lpv and rets == [m.group(1)] and val[0] == "(%s = %s[%s])" % (rname, v, lpv):
+            val_r = [render(a, subs6) for a in walk(thenb) if a["k"] == "BinaryOperator" and a["op"] == "=" and render(kids(a)[0]) == rname]
+            if val and m and m.group(2) == lpv and rets == [m.group(1)] and (val[0] == "(%s = %s[%s])" % (rname, v, lpv) or (val_r and val_r[0] == "(%s = %s[%s])" % (rname, v, lpv))):
                 chk.proved("D6", f.key, "position-with-value", f.loc(iff), "value and position updated together, position returned")
+            elif val and posw:
+                chk.unknown("D6", f.key, "position-with-value", f.loc(iff), "value and position are both assigned; the forms (%s) are not compared" % asg)
             else:
                 chk.refuted("D6", f.key, "position-with-value", f.loc(iff), "%s does not update the running value and the position together (assignments: %s; returned: %s)" % (f.name, asg, rets), witness={"input": "{1, 3, 2}"})
     chk.floor("D6", "extremum searches", n, 4)
